@@ -158,6 +158,30 @@ def run_case(case):
                 viol.append(dict(what="footprint_is_point_reflection_of_unit_response", field=nm, rel=e, tol=tolr, precision=prec, point=(it, jt),
                                  halo=Sh["halo"], setup=gen.describe(Sh)))
         sigs.append(f"{case['idx']}|ch")
+        # (b) with a halo: moving the tower by whole cells moves the footprint by the same cells - also when the tower then stands on
+        # the far edge of the flux map (node nx / ny), one cell before its origin, or anywhere in the halo strip
+        pxh, pyh = Sh["px"], Sh["py"]
+        ib = int(rng.choice([nx2, -1, int(rng.integers(-pxh, nx2 + pxh))])) if pxh else int(rng.integers(nx2))
+        jb = int(rng.choice([ny2, -1, int(rng.integers(-pyh, ny2 + pyh))])) if pyh else int(rng.integers(ny2))
+        ib, jb = max(-pxh, min(nx2 + pxh - 1, ib)), max(-pyh, min(ny2 + pyh - 1, jb))
+        counters["solver_calls"] += 1
+        _, Gb, Fb = solve.solve(Sh, np.zeros((ny2, nx2)), lv2, precision=prec, footprint=True, meas_pt=(ib * dx2, jb * dy2))
+        sxh, syh = ib - it, jb - jt
+        Js, Is = np.arange(ny2) - syh, np.arange(nx2) - sxh
+        okJs, okIs = (Js >= 0) & (Js < ny2), (Is >= 0) & (Is < nx2)
+        if okJs.any() and okIs.any():
+            for nm, A, B in (("flx", Fh, Fb), ("conc", Gh, Gb)):
+                got = B[np.ix_(np.where(okJs)[0], np.where(okIs)[0])]
+                exp = A[np.ix_(Js[okJs], Is[okIs])]
+                scale = max(float(np.max(np.abs(A))), float(np.max(np.abs(B))), 1e-300)
+                e = float(np.max(np.abs(got - exp))) / scale
+                key = f"tower_translation_halo_{prec}"
+                resid[key] = max(resid.get(key, 0.0), e)
+                if e > tolr:
+                    viol.append(dict(what="tower_translation", field=nm, rel=e, tol=tolr, precision=prec, point=(it, jt), moved_to=(ib, jb),
+                                     outside_flux_map=not (0 <= ib < nx2 and 0 <= jb < ny2), halo=Sh["halo"], setup=gen.describe(Sh)))
+            counters["tower_moves_under_halo"] = counters.get("tower_moves_under_halo", 0) + 1
+            counters["tower_moved_outside_flux_map"] = counters.get("tower_moved_outside_flux_map", 0) + int(not (0 <= ib < nx2 and 0 <= jb < ny2))
     return finish(St, desc, prec, lkind, hb, sigs, resid, counters, viol, case, nl, (sx, sy), (im, jm), (tx, ty), (im_, jm_), levels)
 
 
